@@ -50,6 +50,12 @@ def gen(rng, tier):
             for workers, sig in (((2, int(_signal.SIGTERM)), (2, int(_signal.SIGINT))) if tier == "quick" else ((1, int(_signal.SIGTERM)), (2, int(_signal.SIGTERM)), (2, int(_signal.SIGINT)), (3, int(_signal.SIGTERM)))):
                 yield {"family": "process.%s.w%d" % (_signal.Signals(sig).name, workers), "backend": be, "kind": "process_signal", "count": 5, "workers": workers,
                        "signal": sig, "trigger": "signal", "rep": rep}
+            # no worker processes (workers = 0, the application served by the process that was started).  SIGTERM is a trigger only for the
+            # asyncio worker, which installs a handler for it; the trio worker leaves SIGTERM at its default action (outside the statement's
+            # trigger sources, observed and noted in DESIGN.md) and is therefore driven with SIGINT only
+            for sig in ([int(_signal.SIGINT)] if tier == "quick" else [int(_signal.SIGINT)] + ([int(_signal.SIGTERM)] if be == "asyncio" else [])):
+                yield {"family": "process.%s.w0" % _signal.Signals(sig).name, "backend": be, "kind": "process_signal", "count": 4, "workers": 0,
+                       "signal": sig, "trigger": "signal", "rep": rep}
             yield {"family": "lifespan-lingers.inflight", "backend": be, "kind": "inflight_short", "count": 1, "trigger": "callable", "rep": rep, "ls": "lingers"}
 
 
@@ -73,7 +79,7 @@ def _process_signal(case, tally):
         end = time.monotonic() + 20.0
         while time.monotonic() < end:
             try:
-                if open(logf).read().count(" lifespan startup") >= workers:
+                if open(logf).read().count(" lifespan startup") >= max(1, workers):
                     break
             except OSError:
                 pass
